@@ -341,10 +341,34 @@ pub fn lex(src: &dyn Src, opts: &LexOpts) -> Value {
         }
         c.insert("crc".into(), json!(hex32(u32le(&h, 16) as u32)));
         c.insert("name".into(), abs_name(name));
+        if name.len() <= 512 {
+            c.insert("rawhex".into(), json!(hexs(name)));
+        }
+        if fcomment.len() <= 512 {
+            c.insert("fchex".into(), json!(hexs(fcomment)));
+        }
         // the name as a reader must present it (decoded by the flagged encoding), as UTF-8 bytes
         c.insert("dname".into(), abs_name(&crate::cp437::decode_name(name, flags & 0x800 != 0)));
         c.insert("fcomment".into(), abs_name(fcomment));
         c.insert("dfcomment".into(), abs_name(&crate::cp437::decode_name(fcomment, flags & 0x800 != 0)));
+        // WinZip AES record (0x9901): version, vendor "AE", strength, real method
+        let mut aes = vec![];
+        {
+            let mut o = 0usize;
+            while extra.len() - o >= 4 {
+                let id = u16le(extra, o);
+                let ln = u16le(extra, o + 2) as usize;
+                if o + 4 + ln > extra.len() {
+                    break;
+                }
+                if id == 0x9901 && ln == 7 {
+                    let b = &extra[o + 4..o + 11];
+                    aes.push(json!({"ver": u16le(b, 0), "vendor_ok": &b[2..4] == b"AE", "strength": b[4], "inner": u16le(b, 5)}));
+                }
+                o += 4 + ln;
+            }
+        }
+        c.insert("aes".into(), json!(aes));
         c.insert("extra".into(), json!(tlv));
         c.insert("z64_exact".into(), json!(z64_exact));
         cd.push(Value::Object(c));
